@@ -663,3 +663,4 @@ def run(rep, programs):
     # or a free block is reported as taken (and another one is lost) outside tree 0
     from props import c01
     c01.r_huge_coord(rep, prog)
+    c01.r_units(rep, prog)            # tree, huge and frame numbers are converted with the right ratios on the search paths
